@@ -2185,6 +2185,9 @@ func (d *Document) parseParagraph(decoder *xml.Decoder, startElement xml.StartEl
 				if run != nil {
 					paragraph.Runs = append(paragraph.Runs, *run)
 				}
+			case "hyperlink", "ins", "smartTag", "sdt", "sdtContent", "fldSimple", "customXml", "moveTo":
+				// 这些容器里的运行同样承载正文文本：不跳过，继续读取其中的 w:r
+				// （容器本身的属性元素 sdtPr、smartTagPr 等仍由 default 分支跳过）
 			default:
 				// 跳过其他元素
 				if err := d.skipElement(decoder, t.Name.Local); err != nil {
